@@ -732,6 +732,24 @@ func ruleDFS(rule string) RuleFn {
 			}
 		}
 		c.Floor(rule, "recursive calls in isAcyclic", len(rec), 1)
+		// the search goes on with the next successor unless the recursion FOUND a cycle: a return of the
+		// recursive call's result is dominated by the non-empty test of that result
+		for _, k := range rec {
+			nonEmpty := an.EdgesWhere(fn, func(f an.Fact) bool {
+				return f.S == "(len("+an.Norm(k)+") > 0)" || f.S == "(len("+an.Norm(k)+") != 0)" || f.S == "("+an.Norm(k)+" != nil)"
+			})
+			bad := false
+			an.Instrs(fn, func(in ssa.Instruction) {
+				r, ok := in.(*ssa.Return)
+				if !ok || len(r.Results) != 1 || an.Norm(r.Results[0]) != an.Norm(k) {
+					return
+				}
+				if hit, _ := an.PathTo(fn, k, an.IsInstr(r), an.NewGates().AddEdges(nonEmpty...)); hit != nil {
+					bad = true
+				}
+			})
+			c.Check(!bad, rule, "isAcyclic explores every successor unless a cycle was found", "return cycle only if len(cycle) > 0", "the search returns the recursion's result although it is empty: the remaining successors of the node are never explored (cycles through them are missed) and the node stays marked as on the stack", k, nil)
+		}
 		// entry guard
 		eg := an.EdgesWhere(fn, func(f an.Fact) bool {
 			return !strings.HasPrefix(f.S, "!") && strings.HasSuffix(f.S, "p:info[p:u].Visited")
